@@ -78,15 +78,6 @@ theorem xbSave_two (o : Opts) (date : List Nat) (p : Pic) (f0 f1 : Font) (img : 
   unfold xbBody
   simp only [Bool.or_true, if_true, List.nil_append, List.cons_append, List.append_assoc]
 
-theorem dims_xbin (w h : Nat) (hw : w < 65536) (hh : h < 65536) :
-    sauceDims (BinFmt.sauceDtXBin % 256) (0 % 256) (w % 256 + (w / 256) % 256 * 256) (h % 256 + (h / 256) % 256 * 256) 0 = (w, h, false) := by
-  unfold sauceDims
-  have e1 : w % 256 + (w / 256) % 256 * 256 = w := by omega
-  have e2 : h % 256 + (h / 256) % 256 * 256 = h := by omega
-  rw [e1, e2]
-  rfl
-
-
 theorem lookupFont_two0 (a b : Font) : lookupFont [(0, a), (1, b)] 0 = some a := by
   unfold lookupFont; simp [List.lookup]
 
@@ -98,8 +89,9 @@ theorem palIsDefault_false (pal : List Rgb) (h : (!palIsDefault pal) = false) : 
   simpa using h
 
 /-- the buffer the XBin loader produces for a representable picture -/
-def xbLoaded (p : Pic) (two : Bool) (f0 f1 : Font) : LBuf :=
-  { xbBase p.w p.h f0.height (!f0.isDefault || two) (!palIsDefault p.pal) (p.ice == .ice) two (asVec63 p.pal) f0.data f1.data with
+def xbLoaded (p : Pic) (two : Bool) (f0 f1 : Font) (m : Option Sauce.Meta) : LBuf :=
+  { xbBase p.w p.h f0.height (!f0.isDefault || two) (!palIsDefault p.pal) (p.ice == .ice) two (asVec63 p.pal) f0.data f1.data
+      [(0, defaultFont)] m with
     lines := (p.rows.map fun r => r.map shownCell).map (partRow p.w) }
 
 theorem xb_core (o : Opts) (date : List Nat) (p : Pic) (f0 f1 : Font) (two : Bool) (img : List Nat)
@@ -110,8 +102,9 @@ theorem xb_core (o : Opts) (date : List Nat) (p : Pic) (f0 f1 : Font) (two : Boo
     (hf1 : lookupFont p.fonts 1 = some f1 ∨ two = false) (hf1l : f1.data.length = f0.height * 256)
     (hf1h : two = true → f1.height = f0.height)
     (htwo : two = true → allCells p (fun c => decide (c.attr.fg < 8) && !isBold c.attr) = true)
-    (himg : imageData p.ice o.compress p.rows = some img) (s : Option Sauce) :
-    xbLoad (xbBody p o.compress two f0 f1 img) s = .ok (xbLoaded p two f0 f1) ∧ SamePicture .xb p (xbLoaded p two f0 f1) := by
+    (himg : imageData p.ice o.compress p.rows = some img) (s : Option Sauce.Sauce) (hsf : sauceFonts0 s = [(0, defaultFont)]) :
+    xbLoad (xbBody p o.compress two f0 f1 img) s = .ok (xbLoaded p two f0 f1 (s.map metaOf)) ∧
+      SamePicture .xb p (xbLoaded p two f0 f1 (s.map metaOf)) := by
   obtain ⟨hne, hrows, hwid⟩ := rows_nonempty p hwf
   obtain ⟨h1, h2, h3, hdef⟩ := fontOk_parts f0 hfok
   have hpl : p.pal.length = 16 := by
@@ -158,13 +151,15 @@ theorem xb_core (o : Opts) (date : List Nat) (p : Pic) (f0 f1 : Font) (two : Boo
   · unfold xbBody
     rw [xb_load s p.w p.h f0.height (!f0.isDefault || two) (!palIsDefault p.pal) o.compress (p.ice == .ice) two (asVec63 p.pal)
       f0.data f1.data img hw1 hw2 hh h1 h2 (by rw [asVec63_length, hpl]) (by rw [h3]; omega) hf1l (by intro h; simp [h])]
-    rw [xb_pairs p.ice o.compress p.rows img hlen2 hfit himg]
+    rw [xb_pairs p.ice o.compress p.rows img hlen2 hfit himg, hsf]
     simp only
     rw [hdec]
     have hplace := placeAll_rows false false p.w (by omega) rows'
-      (xbBase p.w p.h f0.height (!f0.isDefault || two) (!palIsDefault p.pal) (p.ice == .ice) two (asVec63 p.pal) f0.data f1.data)
+      (xbBase p.w p.h f0.height (!f0.isDefault || two) (!palIsDefault p.pal) (p.ice == .ice) two (asVec63 p.pal) f0.data f1.data
+        [(0, defaultFont)] (s.map metaOf))
       hrw (Nat.le_refl _) (Or.inr (by show ((0 : Nat) : Int) + rows'.length ≤ (p.h : Int); rw [hrl]; omega))
-    have hl0 : (xbBase p.w p.h f0.height (!f0.isDefault || two) (!palIsDefault p.pal) (p.ice == .ice) two (asVec63 p.pal) f0.data f1.data).lines = [] := rfl
+    have hl0 : (xbBase p.w p.h f0.height (!f0.isDefault || two) (!palIsDefault p.pal) (p.ice == .ice) two (asVec63 p.pal) f0.data f1.data
+        [(0, defaultFont)] (s.map metaOf)).lines = [] := rfl
     rw [hl0] at hplace
     simp only [List.length_nil, List.nil_append, Bool.false_eq_true, false_and, if_false] at hplace
     rw [hplace]
@@ -177,7 +172,7 @@ theorem xb_core (o : Opts) (date : List Nat) (p : Pic) (f0 f1 : Font) (two : Boo
       apply partRow_nonempty
       have := hrw r0 hr0
       intro he; rw [he] at this; simp at this; omega
-  · have hgp : (xbLoaded p two f0 f1).pal = p.pal := by
+  · have hgp : (xbLoaded p two f0 f1 (s.map metaOf)).pal = p.pal := by
       show (if (!palIsDefault p.pal) = true then from63 (asVec63 p.pal) else dosPalette) = p.pal
       by_cases hpd : (!palIsDefault p.pal) = true
       · simp only [hpd, if_true]; exact from63_asVec63 p.pal hp6
@@ -189,11 +184,11 @@ theorem xb_core (o : Opts) (date : List Nat) (p : Pic) (f0 f1 : Font) (two : Boo
       simp [hrows]
     · show isIce (if (p.ice == IceMode.ice) = true then IceMode.ice else IceMode.blink) = isIce p.ice
       rcases him with h | h <;> rw [h] <;> rfl
-    · exact cells_of_rows p (xbLoaded p two f0 f1) hwf (Nat.le_refl _) rfl hgp rfl
+    · exact cells_of_rows p (xbLoaded p two f0 f1 (s.map metaOf)) hwf (Nat.le_refl _) rfl hgp rfl
     · intro _
       unfold fontsSame
       rw [hpages]
-      have hg0 : ∃ fa, lookupFont (xbLoaded p two f0 f1).fonts 0 = some fa ∧ fa.height = f0.height ∧ fa.data = f0.data := by
+      have hg0 : ∃ fa, lookupFont (xbLoaded p two f0 f1 (s.map metaOf)).fonts 0 = some fa ∧ fa.height = f0.height ∧ fa.data = f0.data := by
         show ∃ fa, lookupFont (if (!f0.isDefault || two) = true then (if two = true then [(0, mkFont f0.height f0.data), (1, mkFont f0.height f1.data)]
           else [(0, mkFont f0.height f0.data)]) else [(0, defaultFont)]) 0 = some fa ∧ _
         by_cases hff : (!f0.isDefault || two) = true
@@ -218,7 +213,7 @@ theorem xb_core (o : Opts) (date : List Nat) (p : Pic) (f0 f1 : Font) (two : Boo
           rcases hf1 with h | h
           · exact h
           · exact absurd h (by decide)
-        have hg1 : lookupFont (xbLoaded p true f0 f1).fonts 1 = some (mkFont f0.height f1.data) := by
+        have hg1 : lookupFont (xbLoaded p true f0 f1 (s.map metaOf)).fonts 1 = some (mkFont f0.height f1.data) := by
           show lookupFont (if (!f0.isDefault || true) = true then (if true = true then [(0, mkFont f0.height f0.data), (1, mkFont f0.height f1.data)]
             else [(0, mkFont f0.height f0.data)]) else [(0, defaultFont)]) 1 = _
           simp only [Bool.or_true, if_true]
@@ -229,14 +224,20 @@ theorem xb_core (o : Opts) (date : List Nat) (p : Pic) (f0 f1 : Font) (two : Boo
     · intro _; exact palSame_of_eq p _ hgp
 
 
-/-- XBin: every representable picture is written, and — unless it was saved without a SAUCE record and its last 128 bytes
-    spell one — loaded back as the same picture -/
+theorem sauceFonts0_none : sauceFonts0 none = [(0, defaultFont)] := rfl
+
+theorem sauceFonts0_nofont (s : Sauce.Sauce) (h : s.font = none) : sauceFonts0 (some s) = [(0, defaultFont)] := by
+  unfold sauceFonts0 startFonts
+  simp [h]
+
+/-- XBin: every representable picture is written, and — unless it was saved without a SAUCE record and its tail reads as
+    one — loaded back as the same picture -/
 theorem xb_roundtrip (o : Opts) (date : List Nat) (p : Pic) (hrep : Representable .xb o p = true) (hdate : dateOk date = true) :
     ∃ bytes, save .xb o date p = .ok bytes ∧
-      ((o.sauce = true ∨ looksLikeSauce bytes = false) → ∃ g, fromBytes .xb bytes = .ok g ∧ SamePicture .xb p g) := by
+      ((o.sauce = true ∨ tailReadsAsSauce bytes = false) → ∃ g, fromBytes .xb bytes = .ok g ∧ SamePicture .xb p g) := by
   unfold Representable at hrep
   simp only [Bool.and_eq_true, beq_iff_eq, decide_eq_true_eq, Bool.or_eq_true] at hrep
-  obtain ⟨hwf, ⟨⟨⟨⟨⟨⟨⟨hw1, hw2⟩, hh⟩, him⟩, hcells⟩, hpal⟩, hpg⟩, hfonts⟩⟩ := hrep
+  obtain ⟨⟨hmeta, hwf⟩, ⟨⟨⟨⟨⟨⟨⟨hw1, hw2⟩, hh⟩, him⟩, hcells⟩, hpal⟩, hpg⟩, hfonts⟩⟩ := hrep
   have hpl : p.pal.length = 16 := by
     unfold pal16 at hpal; simp only [Bool.and_eq_true, beq_iff_eq] at hpal; exact hpal.1
   have hfit := fits8_of_cells p _ hcells
@@ -254,37 +255,40 @@ theorem xb_roundtrip (o : Opts) (date : List Nat) (p : Pic) (hrep : Representabl
     have finish : ∀ (two : Bool) (f1 : Font),
         (xbSave o.compress o.sauce date p =
           if o.sauce then writeSauce .xbin p date (xbBody p o.compress two f0 f1 img) else .ok (xbBody p o.compress two f0 f1 img)) →
-        (∀ s, xbLoad (xbBody p o.compress two f0 f1 img) s = .ok (xbLoaded p two f0 f1) ∧ SamePicture .xb p (xbLoaded p two f0 f1)) →
+        (∀ s, sauceFonts0 s = [(0, defaultFont)] → xbLoad (xbBody p o.compress two f0 f1 img) s = .ok (xbLoaded p two f0 f1 (s.map metaOf)) ∧
+          SamePicture .xb p (xbLoaded p two f0 f1 (s.map metaOf))) →
         ∃ bytes, save .xb o date p = .ok bytes ∧
-          ((o.sauce = true ∨ looksLikeSauce bytes = false) → ∃ g, fromBytes .xb bytes = .ok g ∧ SamePicture .xb p g) := by
+          ((o.sauce = true ∨ tailReadsAsSauce bytes = false) → ∃ g, fromBytes .xb bytes = .ok g ∧ SamePicture .xb p g) := by
       intro two f1 hsv hcore
       cases hsa : o.sauce with
       | true =>
-        obtain ⟨bytes, hw, hfb⟩ := fromBytes_sauced .xb .xbin p date (xbBody p o.compress two f0 f1 img) f0 BinFmt.sauceDtXBin 0 p.w p.h false false hf0
-          (by unfold sauceFields; rfl) hdate
-        refine ⟨bytes, ?_, fun _ => ⟨xbLoaded p two f0 f1, ?_, (hcore none).2⟩⟩
+        obtain ⟨bytes, hw, _, hfb⟩ := fromBytes_sauced .xb .xbin p date (xbBody p o.compress two f0 f1 img) f0 hf0 hmeta (fun h => by cases h) hdate
+        obtain ⟨_, _, _, c4⟩ := carry_xbin p f0.name (bytes.length - (xbBody p o.compress two f0 f1 img).length) (by omega) (by omega)
+        have hc := hcore (some (Sauce.carry SauceKind.xbin.idx (bufInfo p f0.name) (bytes.length - (xbBody p o.compress two f0 f1 img).length)))
+          (sauceFonts0_nofont _ c4)
+        refine ⟨bytes, ?_, fun _ => ⟨_, ?_, hc.2⟩⟩
         · show xbSave o.compress o.sauce date p = _
           rw [hsv, hsa]; exact hw
         · rw [hfb]
-          exact (hcore _).1
+          exact hc.1
       | false =>
         refine ⟨xbBody p o.compress two f0 f1 img, ?_, fun hor => ?_⟩
         · show xbSave o.compress o.sauce date p = _
           rw [hsv, hsa]; rfl
-        · have hl : looksLikeSauce (xbBody p o.compress two f0 f1 img) = false := by
+        · have hl : tailReadsAsSauce (xbBody p o.compress two f0 f1 img) = false := by
             rcases hor with h | h
             · exact absurd h (by simp)
             · exact h
-          refine ⟨xbLoaded p two f0 f1, ?_, (hcore none).2⟩
-          rw [fromBytes_plain .xb _ hl]
-          exact (hcore none).1
+          refine ⟨_, ?_, (hcore none sauceFonts0_none).2⟩
+          rw [fromBytes_plain' .xb _ hl]
+          exact (hcore none sauceFonts0_none).1
     rcases hpg with hp1 | hp2
     · -- one font
       apply finish false f0
       · exact xbSave_single o date p f0 img hp1 hf0 hfok hpl himg
-      · intro s
+      · intro s hsf
         exact xb_core o date p f0 f0 false img hwf hw1 hw2 hh him hcells hpal (by simpa using hp1) hf0 hfok (Or.inr rfl)
-          (by rw [h3]; omega) (by intro h; exact absurd h (by decide)) (by intro h; exact absurd h (by decide)) himg s
+          (by rw [h3]; omega) (by intro h; exact absurd h (by decide)) (by intro h; exact absurd h (by decide)) himg s hsf
     · -- two fonts
       have hsec := hsecond
       rcases hsec with hne | hsec
@@ -298,8 +302,8 @@ theorem xb_roundtrip (o : Opts) (date : List Nat) (p : Pic) (hrep : Representabl
           obtain ⟨_, _, h3', _⟩ := fontOk_parts f1 hfok1
           apply finish true f1
           · exact xbSave_two o date p f0 f1 img hp2 hf0 hf1 hfok hfok1 hhe hpl himg
-          · intro s
+          · intro s hsf
             exact xb_core o date p f0 f1 true img hwf hw1 hw2 hh him hcells hpal (by simpa using hp2) hf0 hfok (Or.inl hf1)
-              (by rw [h3', hhe]; omega) (fun _ => hhe) (fun _ => hc8) himg s
+              (by rw [h3', hhe]; omega) (fun _ => hhe) (fun _ => hc8) himg s hsf
 
 end IcyVerif.BinFormats
